@@ -224,6 +224,10 @@ def case_gen(case):
     target = case["target"]
     nbmax = 26 if target in ("molden", "molekel") else 40
     data, feats = wo.make(rng, target, nbasis_max=nbmax, with_rdms=(target == "fchk" and rng.random() < 0.5))
+    if case["i"] % 5 == 4:
+        from ..gen import objects as go
+
+        go.relayout(data, gb.rng_for(1, 77, case["seed"], case["i"]))  # equal arrays in Fortran order / strided views
     root = tempfile.mkdtemp(prefix="vf_c01_")
     viols, featlist = [], []
     counters = {"dumps": 0, "dump_success": 0, "prepare_errors": 0, "dump_errors": 0, "other_exceptions": 0, "orbital_comparisons": 0}
